@@ -2,6 +2,7 @@ package frame
 
 import (
 	"bufio"
+	"bytes"
 	"fmt"
 	"io"
 	"time"
@@ -16,20 +17,6 @@ const (
 
 // 1st January 2015 GMT
 var signatureReferenceDate = time.Date(2015, 0o1, 0o1, 0, 0, 0, 0, time.UTC)
-
-func hasEmptyBytes(buf []byte) bool {
-	return len(buf) > 1 && buf[len(buf)-1] == 0x00
-}
-
-func removeEmptyBytes(buf []byte) []byte {
-	// even with truncation, message length must be at least 1 byte
-	// https://github.com/mavlink/c_library_v2/blob/7ea034366ee7f09f3991a5b82f51f0c259023b38/mavlink_helpers.h#L113
-	end := len(buf)
-	for end > 1 && buf[end-1] == 0x00 {
-		end--
-	}
-	return buf[:end]
-}
 
 // ReadError is the error returned in case of non-fatal parsing errors.
 type ReadError struct {
@@ -181,21 +168,29 @@ func (r *Reader) Read() (Frame, error) {
 				return nil, newError("unable to decode message: %s", err.Error())
 			}
 
+			// Some libraries generate messages whose payload is not the canonical encoding
+			// (trailing empty bytes not removed, bytes after a string terminator, unknown
+			// trailing extension bytes).
+			// The specification says that we must support these messages (and we are)
+			// but there might be troubles when re-encoding them, since checksum is different.
+			// re-encode the message and re-compute the checksum on the canonical payload.
+			// https://mavlink.io/en/guide/serialization.html#payload_truncation
+			// https://github.com/mavlink/rust-mavlink/issues/188#issuecomment-1670605245
+			if canonical := mp.Write(msg, isV2).Payload; !bytes.Equal(canonical, rawMessage.Payload) {
+				rawMessage.Payload = canonical
+
+				switch f := f.(type) {
+				case *V1Frame:
+					f.Checksum = f.GenerateChecksum(mp.CRCExtra())
+				case *V2Frame:
+					f.Checksum = f.GenerateChecksum(mp.CRCExtra())
+				}
+			}
+
 			switch f := f.(type) {
 			case *V1Frame:
 				f.Message = msg
 			case *V2Frame:
-				// Some libraries generate messages without removing trailing empty bytes.
-				// The specification says that we must support these messages (and we are)
-				// but there might be troubles when re-encoding them, since checksum is different.
-				// remove trailing empty bytes and re-compute the checksum.
-				// https://mavlink.io/en/guide/serialization.html#payload_truncation
-				// https://github.com/mavlink/rust-mavlink/issues/188#issuecomment-1670605245
-				if isV2 && hasEmptyBytes(rawMessage.Payload) {
-					rawMessage.Payload = removeEmptyBytes(rawMessage.Payload)
-					f.Checksum = f.GenerateChecksum(mp.CRCExtra())
-				}
-
 				f.Message = msg
 			}
 		}
